@@ -236,8 +236,19 @@ def run(ctx, idx):
         probs.append("text can no longer clean to both an integer and a decimal")
     ctx.ob("C20.e", "%s::number-text" % np_.key, K.rel(np_), np_.node.lineno, not probs, "text -> int(text), else float(text)" if not probs else probs[0])
     bp = idx.cls("mpilot.params", "BooleanParameter").methods.get("clean")
-    s = K.src(bp.node)
-    ok = "'true'" in s and "'false'" in s and "bool(int(" in s
+    # the words recognised: string constants in the method and the keys of module-level tables it consults
+    words = {n.value.lower() for n in own_nodes(bp.node) if isinstance(n, ast.Constant) and isinstance(n.value, str)}
+    for n in own_nodes(bp.node):
+        if isinstance(n, ast.Name) and isinstance(n.ctx, ast.Load):
+            try:
+                c = idx.const(bp.module, n, bp)
+            except KeyError:
+                continue
+            for x in (c if isinstance(c, (dict, list, tuple, set, frozenset)) else ()):
+                if isinstance(x, str):
+                    words.add(x.lower())
+    via_int = any(isinstance(n, ast.Call) and isinstance(n.func, ast.Name) and n.func.id == "bool" and n.args and isinstance(n.args[0], ast.Call) and isinstance(n.args[0].func, ast.Name) and n.args[0].func.id == "int" for n in own_nodes(bp.node))
+    ok = {"true", "false"} <= words and via_int
     ctx.ob("C20.e", "%s::boolean-forms" % bp.key, K.rel(bp), bp.node.lineno, ok, "true/false/0/1 forms recognised" if ok else "BooleanParameter no longer recognises the true/false/0/1 forms")
     if ok:
         # 'true' must yield True and 'false' False
